@@ -1,54 +1,40 @@
 (* Proofs about the session model (Model/QSSession.v): no call of the estimator writes the
-   caller's cut-off arrays, an estimator's parameters are fixed by its construction, and a fit
-   after ANY history is the fresh fit of Model/QuickShift.v. *)
+   caller's arrays; the hyper-parameters in force at any moment are determined by the
+   configuration calls (constructor, set_params) addressed to that estimator alone, last write
+   wins; fit reads every one of them when it runs, so a fit after ANY history is the fresh fit of
+   Model/QuickShift.v for the parameters in force. *)
 From Verif Require Import ListX ListXP QuickShift QuickShiftP QSSession.
 Close Scope Z_scope.
 Open Scope nat_scope.
 
-Lemma qstep_cuts cd S o : s_cuts (fst (qstep cd S o)) = s_cuts S.
-Proof.
-  destruct o as [e c s2 sh|e d|e sh|d w|e]; cbn [qstep].
-  - destruct (construct _ _ _ _); reflexivity.
-  - destruct (dim_mismatch _ _); [reflexivity|]. destruct (est_fit _ _); reflexivity.
-  - reflexivity.
-  - reflexivity.
-  - reflexivity.
-Qed.
+Ltac qstep_cases o :=
+  destruct o as [e c s2 sh cell|e d|e sh|e cell|e c|e s2|d w|e]; cbn [qstep];
+  [destruct (construct _ _ _ _ _)
+  |destruct (fit_guard _ _ _); [|destruct (est_fit _ _)]
+  | | | | | | ].
 
-Lemma qstep_len cd S o : length (s_est (fst (qstep cd S o))) = length (s_est S).
-Proof.
-  destruct o as [e c s2 sh|e d|e sh|d w|e]; cbn [qstep].
-  - destruct (construct _ _ _ _); cbn; [apply upd_nth_length|reflexivity].
-  - destruct (dim_mismatch _ _); [reflexivity|]. destruct (est_fit _ _); cbn; [apply upd_nth_length|reflexivity].
-  - cbn. apply upd_nth_length.
-  - reflexivity.
-  - reflexivity.
-Qed.
+Lemma qstep_cuts S o : s_cuts (fst (qstep S o)) = s_cuts S.
+Proof. qstep_cases o; reflexivity. Qed.
+Lemma qstep_cells S o : s_cells (fst (qstep S o)) = s_cells S.
+Proof. qstep_cases o; reflexivity. Qed.
+Lemma qstep_len S o : length (s_est (fst (qstep S o))) = length (s_est S).
+Proof. qstep_cases o; cbn; rewrite ?upd_nth_length; reflexivity. Qed.
 
-Lemma qrun_cons cd S o ops :
-  fst (qrun cd S (o :: ops)) = fst (qrun cd (fst (qstep cd S o)) ops).
-Proof.
-  cbn [qrun]. destruct (qstep cd S o) as [S1 b]. cbn [fst]. destruct (qrun cd S1 ops). reflexivity.
-Qed.
+Lemma qrun_cons S o ops : fst (qrun S (o :: ops)) = fst (qrun (fst (qstep S o)) ops).
+Proof. cbn [qrun]. destruct (qstep S o) as [S1 b]. cbn [fst]. destruct (qrun S1 ops). reflexivity. Qed.
 
-Lemma qrun_app cd a : forall S b,
-  fst (qrun cd S (a ++ b)) = fst (qrun cd (fst (qrun cd S a)) b).
+Lemma qrun_app a : forall S b, fst (qrun S (a ++ b)) = fst (qrun (fst (qrun S a)) b).
 Proof.
   induction a as [|o a IH]; intros S b; [reflexivity|].
   rewrite <- app_comm_cons, !qrun_cons. apply IH.
 Qed.
 
-Lemma qrun_cuts cd ops : forall S, s_cuts (fst (qrun cd S ops)) = s_cuts S.
-Proof.
-  induction ops as [|o ops IH]; intros S; [reflexivity|].
-  rewrite qrun_cons, IH. apply qstep_cuts.
-Qed.
-
-Lemma qrun_len cd ops : forall S, length (s_est (fst (qrun cd S ops))) = length (s_est S).
-Proof.
-  induction ops as [|o ops IH]; intros S; [reflexivity|].
-  rewrite qrun_cons, IH. apply qstep_len.
-Qed.
+Lemma qrun_cuts ops : forall S, s_cuts (fst (qrun S ops)) = s_cuts S.
+Proof. induction ops as [|o ops IH]; intros S; [reflexivity|]. rewrite qrun_cons, IH. apply qstep_cuts. Qed.
+Lemma qrun_cells ops : forall S, s_cells (fst (qrun S ops)) = s_cells S.
+Proof. induction ops as [|o ops IH]; intros S; [reflexivity|]. rewrite qrun_cons, IH. apply qstep_cells. Qed.
+Lemma qrun_len ops : forall S, length (s_est (fst (qrun S ops))) = length (s_est S).
+Proof. induction ops as [|o ops IH]; intros S; [reflexivity|]. rewrite qrun_cons, IH. apply qstep_len. Qed.
 
 (* the caller's data are changed by the caller's own writes only *)
 Definition caller_step (D : list qdata) (o : qop) : list qdata :=
@@ -57,166 +43,272 @@ Definition caller_step (D : list qdata) (o : qop) : list qdata :=
   | _ => D
   end.
 
-Lemma qstep_data cd S o : s_data (fst (qstep cd S o)) = caller_step (s_data S) o.
-Proof.
-  destruct o as [e c s2 sh|e d|e sh|d w|e]; cbn [qstep caller_step].
-  - destruct (construct _ _ _ _); reflexivity.
-  - destruct (dim_mismatch _ _); [reflexivity|]. destruct (est_fit _ _); reflexivity.
-  - reflexivity.
-  - reflexivity.
-  - reflexivity.
-Qed.
+Lemma qstep_data S o : s_data (fst (qstep S o)) = caller_step (s_data S) o.
+Proof. qstep_cases o; reflexivity. Qed.
 
-Lemma qrun_data cd ops : forall S, s_data (fst (qrun cd S ops)) = fold_left caller_step ops (s_data S).
+Lemma qrun_data ops : forall S, s_data (fst (qrun S ops)) = fold_left caller_step ops (s_data S).
 Proof.
   induction ops as [|o ops IH]; intros S; [reflexivity|].
   rewrite qrun_cons, IH, qstep_data. reflexivity.
 Qed.
 
-(* [reconf e o]: o re-binds est[e] or sets one of its parameters *)
+(* [reconf e o]: o (re)binds est[e] or sets one of the parameters fit reads.  set_params(scale=..)
+   is NOT among them: the attribute is not read after __init__ *)
 Definition reconf (e : nat) (o : qop) : bool :=
   match o with
-  | New e' _ _ _ => Nat.eqb e' e
+  | New e' _ _ _ _ => Nat.eqb e' e
   | SetShell e' _ => Nat.eqb e' e
+  | SetCell e' _ => Nat.eqb e' e
+  | SetCut e' _ => Nat.eqb e' e
   | _ => false
   end.
+
+(* the parameters fit reads *)
+Definition pars (x : qest) := (e_cut x, e_shell x, e_cell x, e_cell0 x).
+
+Lemma pars_inv x y : pars x = pars y ->
+  e_cut x = e_cut y /\ e_shell x = e_shell y /\ e_cell x = e_cell y /\ e_cell0 x = e_cell0 y.
+Proof. unfold pars. intros H. injection H as A B C D. repeat split; assumption. Qed.
 
 Lemma get_set_eq S e x : e < length (s_est S) -> get_est (set_est S e x) e = x.
 Proof. intros H. unfold get_est, set_est. cbn. apply nth_upd_nth_eq. exact H. Qed.
 Lemma get_set_neq S e e' x : e' <> e -> get_est (set_est S e' x) e = get_est S e.
 Proof. intros H. unfold get_est, set_est. cbn. apply nth_upd_nth_neq. exact H. Qed.
 
-Lemma get_set_params S e e' x :
-  e_cut x = e_cut (get_est S e') -> e_shell x = e_shell (get_est S e') ->
-  e_cut (get_est (set_est S e' x) e) = e_cut (get_est S e) /\
-  e_shell (get_est (set_est S e' x) e) = e_shell (get_est S e).
+Lemma cfg_step_pars cuts x x' o : pars x = pars x' -> pars (cfg_step cuts x o) = pars (cfg_step cuts x' o).
 Proof.
-  intros H1 H2. destruct (Nat.eq_dec e' e) as [->|Hn].
-  - destruct (Nat.lt_ge_cases e (length (s_est S))) as [L|L].
-    + rewrite get_set_eq by exact L. split; assumption.
-    + unfold get_est, set_est. cbn.
-      rewrite !(nth_overflow _ no_est) by (rewrite ?upd_nth_length; exact L). split; reflexivity.
-  - rewrite get_set_neq by exact Hn. split; reflexivity.
+  intros H. destruct (pars_inv x x' H) as (A & B & C & D).
+  destruct o as [e c s2 sh cell|e d|e sh|e cell|e c|e s2|d w|e]; cbn [cfg_step]; try exact H.
+  - destruct (construct _ _ _ _ _); [reflexivity|exact H].
+  - unfold pars. cbn. congruence.
+  - unfold pars. cbn. congruence.
+  - unfold pars. cbn. congruence.
 Qed.
 
-Lemma qstep_keep cd S o e : reconf e o = false ->
-  e_cut (get_est (fst (qstep cd S o)) e) = e_cut (get_est S e) /\
-  e_shell (get_est (fst (qstep cd S o)) e) = e_shell (get_est S e).
+Lemma fold_cfg_pars cuts l : forall x x', pars x = pars x' ->
+  pars (fold_left (cfg_step cuts) l x) = pars (fold_left (cfg_step cuts) l x').
 Proof.
-  destruct o as [e' c s2 sh|e' d|e' sh|d w|e']; cbn [qstep reconf]; intros Hr.
-  - apply Nat.eqb_neq in Hr. destruct (construct _ _ _ _); cbn [fst]; [|split; reflexivity].
-    rewrite get_set_neq by exact Hr. split; reflexivity.
-  - destruct (dim_mismatch _ _); [split; reflexivity|].
-    destruct (est_fit _ _); cbn [fst]; [|split; reflexivity].
-    apply get_set_params; reflexivity.
-  - apply Nat.eqb_neq in Hr. cbn [fst]. rewrite get_set_neq by exact Hr. split; reflexivity.
-  - split; reflexivity.
-  - split; reflexivity.
+  induction l as [|o l IH]; intros x x' H; [exact H|]. cbn [fold_left]. apply IH. apply cfg_step_pars. exact H.
 Qed.
 
-Lemma qrun_keep cd e ops : forall S, forallb (fun o => negb (reconf e o)) ops = true ->
-  e_cut (get_est (fst (qrun cd S ops)) e) = e_cut (get_est S e) /\
-  e_shell (get_est (fst (qrun cd S ops)) e) = e_shell (get_est S e).
+(* one step: est[e]'s parameters change only through a configuration call addressed to it *)
+Lemma qstep_est S o e : e < length (s_est S) ->
+  pars (get_est (fst (qstep S o)) e) =
+  pars (if reconf e o then cfg_step (s_cuts S) (get_est S e) o else get_est S e).
 Proof.
-  induction ops as [|o ops IH]; intros S H; [split; reflexivity|].
-  cbn [forallb] in H. apply andb_prop in H. destruct H as [Ho Hr].
-  apply negb_true_iff in Ho. rewrite qrun_cons.
-  destruct (IH (fst (qstep cd S o)) Hr) as [A B]. destruct (qstep_keep cd S o e Ho) as [A' B'].
-  split; congruence.
+  intros He.
+  destruct o as [e' c s2 sh cell|e' d|e' sh|e' cell|e' c|e' s2|d w|e']; cbn [qstep reconf].
+  - cbn [cfg_step]. destruct (construct _ _ _ _ _) as [y|]; cbn [fst].
+    + destruct (Nat.eqb_spec e' e) as [->|Hn]; [rewrite get_set_eq by exact He|rewrite get_set_neq by exact Hn]; reflexivity.
+    + destruct (e' =? e); reflexivity.
+  - destruct (fit_guard _ _ _); [reflexivity|]. destruct (est_fit _ _); [|reflexivity]. cbn [fst].
+    destruct (Nat.eq_dec e' e) as [->|Hn]; [rewrite get_set_eq by exact He|rewrite get_set_neq by exact Hn]; reflexivity.
+  - cbn [fst]. destruct (Nat.eqb_spec e' e) as [->|Hn]; [rewrite get_set_eq by exact He|rewrite get_set_neq by exact Hn]; reflexivity.
+  - cbn [fst]. destruct (Nat.eqb_spec e' e) as [->|Hn]; [rewrite get_set_eq by exact He|rewrite get_set_neq by exact Hn]; reflexivity.
+  - cbn [fst]. destruct (Nat.eqb_spec e' e) as [->|Hn]; [rewrite get_set_eq by exact He|rewrite get_set_neq by exact Hn]; reflexivity.
+  - cbn [fst cfg_step]. destruct (Nat.eq_dec e' e) as [->|Hn]; [rewrite get_set_eq by exact He|rewrite get_set_neq by exact Hn]; reflexivity.
+  - reflexivity.
+  - reflexivity.
 Qed.
 
-(* the observation of a fit in state S *)
+(* the parameters in force after a history = the configuration calls addressed to est[e], in order *)
+Theorem session_params_projection e ops : forall S, e < length (s_est S) ->
+  pars (get_est (fst (qrun S ops)) e) =
+  pars (fold_left (cfg_step (s_cuts S)) (filter (reconf e) ops) (get_est S e)).
+Proof.
+  induction ops as [|o ops IH]; intros S He; [reflexivity|].
+  rewrite qrun_cons. rewrite IH by (rewrite qstep_len; exact He). rewrite qstep_cuts.
+  cbn [filter]. pose proof (qstep_est S o e He) as H1.
+  destruct (reconf e o); cbn [fold_left]; apply fold_cfg_pars; exact H1.
+Qed.
+
+Lemma filter_none e mid : forallb (fun o => negb (reconf e o)) mid = true -> filter (reconf e) mid = [].
+Proof.
+  induction mid as [|o mid IH]; intros H; [reflexivity|]. cbn [forallb] in H.
+  apply andb_prop in H. destruct H as [Ho Hr]. apply negb_true_iff in Ho. cbn [filter]. rewrite Ho. apply IH. exact Hr.
+Qed.
+
+(* ... in particular: the last configuration call, whatever came before and whatever
+   non-configuring calls came after *)
+Lemma pars_last S0 pre o mid e :
+  e < length (s_est S0) -> reconf e o = true ->
+  forallb (fun o => negb (reconf e o)) mid = true ->
+  pars (get_est (fst (qrun S0 (pre ++ o :: mid))) e) =
+  pars (cfg_step (s_cuts S0) (get_est (fst (qrun S0 pre)) e) o).
+Proof.
+  intros He Ho Hmid. rewrite qrun_app, qrun_cons. set (S1 := fst (qrun S0 pre)).
+  assert (He1 : e < length (s_est S1)) by (unfold S1; rewrite qrun_len; exact He).
+  rewrite session_params_projection by (rewrite qstep_len; exact He1).
+  rewrite (filter_none e mid Hmid). cbn [fold_left].
+  rewrite (qstep_est S1 o e He1), Ho. unfold S1. rewrite qrun_cuts. reflexivity.
+Qed.
+
+(* the observation of a fit *)
 Definition fit_obs (r : option (list (option nat))) : qobs :=
   match r with Some R => ObsFit R (centres R) | None => ObsErr end.
 
-Lemma qstep_fit_obs cd S e d : dim_mismatch cd (q_dim (get_data S d)) = false ->
-  snd (qstep cd S (Fit e d)) = fit_obs (est_fit (get_est S e) (get_data S d)).
+Lemma qstep_fit_obs S e d : fit_guard (s_cells S) (get_est S e) (get_data S d) = false ->
+  snd (qstep S (Fit e d)) = fit_obs (est_fit (get_est S e) (get_data S d)).
 Proof. intros H. cbn [qstep]. rewrite H. destruct (est_fit _ _); reflexivity. Qed.
 
-(* the parameters of est[e] after  pre ; New e ... ; mid  (mid without re-configuration of e) *)
-Lemma params_after cd S0 pre mid e c s2 sh x :
-  e < length (s_est S0) ->
-  forallb (fun o => negb (reconf e o)) mid = true ->
-  construct (s_cuts S0) c s2 sh = Some x ->
-  let S := fst (qrun cd S0 (pre ++ New e c s2 sh :: mid)) in
-  e_cut (get_est S e) = e_cut x /\ e_shell (get_est S e) = e_shell x.
-Proof.
-  intros He Hmid Hx. cbv zeta. rewrite qrun_app, qrun_cons.
-  set (S1 := fst (qrun cd S0 pre)).
-  destruct (qrun_keep cd e mid (fst (qstep cd S1 (New e c s2 sh))) Hmid) as [A B].
-  rewrite A, B. cbn [qstep]. unfold S1. rewrite qrun_cuts, Hx. cbn [fst].
-  rewrite get_set_eq by (rewrite qrun_len; exact He). split; reflexivity.
-Qed.
+Lemma est_fit_pars x y q : pars x = pars y -> est_fit x q = est_fit y q.
+Proof. intros H. destruct (pars_inv x y H) as (A & B & C & _). unfold est_fit. rewrite A, B, C. reflexivity. Qed.
+Lemma fit_guard_pars cells x y q : pars x = pars y -> fit_guard cells x q = fit_guard cells y q.
+Proof. intros H. destruct (pars_inv x y H) as (_ & _ & C & D). unfold fit_guard. rewrite C, D. reflexivity. Qed.
 
 (* ---- the theorems ------------------------------------------------------------------------ *)
-Theorem session_cuts_unchanged cd S ops : s_cuts (fst (qrun cd S ops)) = s_cuts S.
+Theorem session_cuts_unchanged S ops : s_cuts (fst (qrun S ops)) = s_cuts S.
 Proof. apply qrun_cuts. Qed.
 
-Theorem session_data_caller_only cd S ops :
-  s_data (fst (qrun cd S ops)) = fold_left caller_step ops (s_data S).
+Theorem session_data_caller_only S ops :
+  s_data (fst (qrun S ops)) = fold_left caller_step ops (s_data S).
 Proof. apply qrun_data. Qed.
 
-Theorem session_fit_fresh_cut cd S0 pre mid e c s2 sh d :
+(* fit reads EVERY hyper-parameter when it runs *)
+Theorem session_fit_params_in_force S0 ops e d :
   e < length (s_est S0) ->
-  forallb (fun o => negb (reconf e o)) mid = true ->
-  let S := fst (qrun cd S0 (pre ++ New e (Some c) s2 sh :: mid)) in
+  let S := fst (qrun S0 ops) in
+  let x := fold_left (cfg_step (s_cuts S0)) (filter (reconf e) ops) (get_est S0 e) in
   let q := get_data S d in
-  dim_mismatch cd (q_dim q) = false ->
-  snd (qstep cd S (Fit e d)) =
-  fit_obs (quickshift (q_D q) (q_w q) (Cut (nth c (s_cuts S0) []) s2)).
+  fit_guard (s_cells S0) x q = false ->
+  snd (qstep S (Fit e d)) = fit_obs (fit_of_params (e_cut x) (e_shell x) (dsel q (e_cell x)) (q_w q)).
 Proof.
-  intros He Hmid S q Hdim. unfold q. rewrite (qstep_fit_obs cd S e d Hdim).
-  destruct (params_after cd S0 pre mid e (Some c) s2 sh
-              (mkEst (Some (eff_cut (nth c (s_cuts S0) []) s2)) sh None) He Hmid) as [A B].
-  { cbn. destruct sh; reflexivity. }
-  fold S in A, B. unfold est_fit. rewrite A. reflexivity.
+  intros He S x q Hg.
+  pose proof (session_params_projection e ops S0 He) as HP. fold S in HP. fold x in HP.
+  rewrite qstep_fit_obs.
+  - fold q. rewrite (est_fit_pars _ x q HP). reflexivity.
+  - unfold S at 1. rewrite qrun_cells. fold S. fold q. rewrite (fit_guard_pars _ _ x q HP). exact Hg.
 Qed.
 
-Theorem session_fit_fresh_gab cd S0 pre mid e s2 sh d :
+Section Last.
+  Variable S0 : qstate.
+  Variables pre mid : list qop.
+  Variable e d : nat.
+  Hypothesis He : e < length (s_est S0).
+  Hypothesis Hmid : forallb (fun o => negb (reconf e o)) mid = true.
+
+  Lemma fit_after_last o y :
+    reconf e o = true ->
+    pars (cfg_step (s_cuts S0) (get_est (fst (qrun S0 pre)) e) o) = pars y ->
+    let S := fst (qrun S0 (pre ++ o :: mid)) in
+    let q := get_data S d in
+    fit_guard (s_cells S0) y q = false ->
+    snd (qstep S (Fit e d)) = fit_obs (est_fit y q).
+  Proof.
+    intros Ho Hy S q Hg.
+    pose proof (pars_last S0 pre o mid e He Ho Hmid) as HP. fold S in HP. rewrite Hy in HP.
+    rewrite qstep_fit_obs.
+    - fold q. apply f_equal. apply est_fit_pars. exact HP.
+    - unfold S at 1. rewrite qrun_cells. fold S. fold q. rewrite (fit_guard_pars _ _ y q HP). exact Hg.
+  Qed.
+End Last.
+
+Lemma guard_same cells cell x q : e_cell x = cell -> e_cell0 x = cell ->
+  fit_guard cells x q = cell_mismatch cells cell (q_dim q).
+Proof. intros A B. unfold fit_guard. rewrite A, B. apply orb_diag. Qed.
+
+Theorem session_fit_fresh_cut S0 pre mid e c s2 sh cell d :
   e < length (s_est S0) ->
   forallb (fun o => negb (reconf e o)) mid = true ->
-  let S := fst (qrun cd S0 (pre ++ New e None s2 (Some sh) :: mid)) in
+  let S := fst (qrun S0 (pre ++ New e (Some c) s2 sh cell :: mid)) in
   let q := get_data S d in
-  dim_mismatch cd (q_dim q) = false ->
-  snd (qstep cd S (Fit e d)) = fit_obs (quickshift (q_D q) (q_w q) (Gab sh)).
+  cell_mismatch (s_cells S0) cell (q_dim q) = false ->
+  snd (qstep S (Fit e d)) =
+  fit_obs (quickshift (dsel q cell) (q_w q) (Cut (nth c (s_cuts S0) []) s2)).
 Proof.
-  intros He Hmid S q Hdim. unfold q. rewrite (qstep_fit_obs cd S e d Hdim).
-  destruct (params_after cd S0 pre mid e None s2 (Some sh) (mkEst None (Some sh) None) He Hmid) as [A B].
-  { reflexivity. }
-  fold S in A, B. unfold est_fit. rewrite A, B. reflexivity.
+  intros He Hmid S q Hdim.
+  set (y := mkEst (Some (eff_cut (nth c (s_cuts S0) []) s2)) sh cell cell None).
+  apply (fit_after_last S0 pre mid e d He Hmid (New e (Some c) s2 sh cell) y).
+  - cbn. apply Nat.eqb_refl.
+  - cbn. destruct sh; reflexivity.
+  - rewrite (guard_same _ cell y) by reflexivity. exact Hdim.
 Qed.
 
-(* gabriel_shell is read at fit time: after est[e].gabriel_shell = sh' the fit is that of shell sh' *)
-Theorem session_fit_fresh_setshell cd S0 pre mid e sh' d :
+Theorem session_fit_fresh_gab S0 pre mid e s2 sh cell d :
   e < length (s_est S0) ->
   forallb (fun o => negb (reconf e o)) mid = true ->
-  let S1 := fst (qrun cd S0 pre) in
-  e_cut (get_est S1 e) = None ->
-  let S := fst (qrun cd S0 (pre ++ SetShell e sh' :: mid)) in
+  let S := fst (qrun S0 (pre ++ New e None s2 (Some sh) cell :: mid)) in
   let q := get_data S d in
-  dim_mismatch cd (q_dim q) = false ->
-  snd (qstep cd S (Fit e d)) = fit_obs (quickshift (q_D q) (q_w q) (Gab sh')).
+  cell_mismatch (s_cells S0) cell (q_dim q) = false ->
+  snd (qstep S (Fit e d)) = fit_obs (quickshift (dsel q cell) (q_w q) (Gab sh)).
 Proof.
-  intros He Hmid S1 Hc S q Hdim. unfold q. rewrite (qstep_fit_obs cd S e d Hdim).
-  unfold S. rewrite qrun_app, qrun_cons. fold S1.
-  destruct (qrun_keep cd e mid (fst (qstep cd S1 (SetShell e sh'))) Hmid) as [A B].
-  unfold est_fit. rewrite A, B. cbn [qstep fst].
-  rewrite get_set_eq by (unfold S1; rewrite qrun_len; exact He). cbn. rewrite Hc. reflexivity.
+  intros He Hmid S q Hdim.
+  set (y := mkEst None (Some sh) cell cell None).
+  apply (fit_after_last S0 pre mid e d He Hmid (New e None s2 (Some sh) cell) y).
+  - cbn. apply Nat.eqb_refl.
+  - reflexivity.
+  - rewrite (guard_same _ cell y) by reflexivity. exact Hdim.
+Qed.
+
+(* set_params: each of the three parameters fit reads is read when fit runs.
+   [x1] = est[e] just before the set_params call *)
+Theorem session_fit_after_setshell S0 pre mid e sh' d :
+  e < length (s_est S0) ->
+  forallb (fun o => negb (reconf e o)) mid = true ->
+  let x1 := get_est (fst (qrun S0 pre)) e in
+  e_cut x1 = None ->
+  let S := fst (qrun S0 (pre ++ SetShell e sh' :: mid)) in
+  let q := get_data S d in
+  fit_guard (s_cells S0) x1 q = false ->
+  snd (qstep S (Fit e d)) = fit_obs (quickshift (dsel q (e_cell x1)) (q_w q) (Gab sh')).
+Proof.
+  intros He Hmid x1 Hc S q Hg.
+  set (y := mkEst None (Some sh') (e_cell x1) (e_cell0 x1) None).
+  etransitivity; [apply (fit_after_last S0 pre mid e d He Hmid (SetShell e sh') y)|reflexivity].
+  - cbn. apply Nat.eqb_refl.
+  - fold x1. unfold pars. cbn. rewrite Hc. reflexivity.
+  - exact Hg.
+Qed.
+
+Theorem session_fit_after_setcell S0 pre mid e cell' d :
+  e < length (s_est S0) ->
+  forallb (fun o => negb (reconf e o)) mid = true ->
+  let x1 := get_est (fst (qrun S0 pre)) e in
+  let S := fst (qrun S0 (pre ++ SetCell e cell' :: mid)) in
+  let q := get_data S d in
+  cell_mismatch (s_cells S0) (e_cell0 x1) (q_dim q) = false ->
+  cell_mismatch (s_cells S0) cell' (q_dim q) = false ->
+  snd (qstep S (Fit e d)) = fit_obs (fit_of_params (e_cut x1) (e_shell x1) (dsel q cell') (q_w q)).
+Proof.
+  intros He Hmid x1 S q Hg0 Hg1.
+  set (y := mkEst (e_cut x1) (e_shell x1) cell' (e_cell0 x1) None).
+  etransitivity; [apply (fit_after_last S0 pre mid e d He Hmid (SetCell e cell') y)|reflexivity].
+  - cbn. apply Nat.eqb_refl.
+  - reflexivity.
+  - unfold fit_guard. cbn [e_cell e_cell0 y]. unfold y. cbn [e_cell e_cell0]. fold S. fold q. rewrite Hg0, Hg1. reflexivity.
+Qed.
+
+(* dist_cutoff_sq given to set_params is used as given: the scale is NOT applied to it *)
+Theorem session_fit_after_setcut S0 pre mid e c d :
+  e < length (s_est S0) ->
+  forallb (fun o => negb (reconf e o)) mid = true ->
+  let x1 := get_est (fst (qrun S0 pre)) e in
+  let S := fst (qrun S0 (pre ++ SetCut e (Some c) :: mid)) in
+  let q := get_data S d in
+  fit_guard (s_cells S0) x1 q = false ->
+  snd (qstep S (Fit e d)) = fit_obs (quickshift (dsel q (e_cell x1)) (q_w q) (Cut (nth c (s_cuts S0) []) 2)).
+Proof.
+  intros He Hmid x1 S q Hg.
+  set (y := mkEst (Some (eff_cut (nth c (s_cuts S0) []) 2)) (e_shell x1) (e_cell x1) (e_cell0 x1) None).
+  etransitivity; [apply (fit_after_last S0 pre mid e d He Hmid (SetCut e (Some c)) y)|reflexivity].
+  - cbn. apply Nat.eqb_refl.
+  - reflexivity.
+  - exact Hg.
 Qed.
 
 (* rejected calls leave the whole state as it was *)
-Theorem session_rejections cd S e s2 d :
-  qstep cd S (New e None s2 None) = (S, ObsErr) /\
-  (dim_mismatch cd (q_dim (get_data S d)) = true -> qstep cd S (Fit e d) = (S, ObsErr)).
+Theorem session_rejections S e s2 cell d :
+  qstep S (New e None s2 None cell) = (S, ObsErr) /\
+  (fit_guard (s_cells S) (get_est S e) (get_data S d) = true -> qstep S (Fit e d) = (S, ObsErr)).
 Proof. split; [reflexivity|]. intros H. cbn [qstep]. rewrite H. reflexivity. Qed.
 
 (* labels_ is the result of the LAST successful fit *)
-Theorem session_read_after_fit cd S e d R c :
+Theorem session_read_after_fit S e d R c :
   e < length (s_est S) ->
-  qstep cd S (Fit e d) = (fst (qstep cd S (Fit e d)), ObsFit R c) ->
-  snd (qstep cd (fst (qstep cd S (Fit e d))) (Read e)) = ObsRead (Some R).
+  qstep S (Fit e d) = (fst (qstep S (Fit e d)), ObsFit R c) ->
+  snd (qstep (fst (qstep S (Fit e d))) (Read e)) = ObsRead (Some R).
 Proof.
-  intros He. cbn [qstep]. destruct (dim_mismatch _ _); [discriminate|].
+  intros He. cbn [qstep]. destruct (fit_guard _ _ _); [discriminate|].
   destruct (est_fit _ _) as [R'|]; [|discriminate]. cbn [fst snd]. intros E.
   injection E as <- _. rewrite get_set_eq by exact He. reflexivity.
 Qed.
